@@ -150,7 +150,11 @@ func concretiseFrames(s *framesScenario, rng *rand.Rand, table *Table) [][]byte 
 				for j := 10; j < len(payload); j++ {
 					idx = append(idx, j)
 				}
-				payload[idx[rng.Intn(len(idx))]] ^= 0x5A
+				at := idx[rng.Intn(len(idx))]
+				if s.Tid%3 == 0 {
+					at = 0 // the magic number: the decompressor's Reset itself fails (on a fresh one, before its first use)
+				}
+				payload[at] ^= 0x5A
 			}
 		}
 		f.Ilen = len(inner)
